@@ -121,6 +121,106 @@ func stickyWriterClosed(fn *ssa.Function, cc *ssa.CallCommon) bool {
 	return false
 }
 
+// lastActionBeforeGivingUp: after the call, no path to the function's exit runs
+// any code of the module (only logging and accessors of the standard library):
+// the function is abandoning the operation (a disconnect notice before the
+// connection is dropped) and nothing proceeds as if the call had succeeded. A
+// dropped error that is followed by further protocol steps is not covered.
+func (c *Ctx) lastActionBeforeGivingUp(fn *ssa.Function, call *ssa.Call) bool {
+	return c.nothingFollows(fn, call, 0)
+}
+
+func (c *Ctx) nothingFollows(fn *ssa.Function, call ssa.CallInstruction, depth int) bool {
+	if hasErrorResult(fn) || depth > 2 {
+		return false // it could have been reported
+	}
+	// harmless: the function (and what it calls statically inside the module) only talks to the
+	// standard library - a logging helper - and performs no step of the module's own protocol code
+	var harmless func(g *ssa.Function, d int) bool
+	stepCall := func(ci ssa.CallInstruction, d int) bool {
+		cc := ci.Common()
+		if _, isB := cc.Value.(*ssa.Builtin); isB {
+			return false
+		}
+		if cc.IsInvoke() {
+			// a method of an interface: harmless only when the interface is not one of the module's
+			if n, ok := types.Unalias(cc.Value.Type()).(*types.Named); ok && n.Obj().Pkg() != nil && !strings.HasPrefix(n.Obj().Pkg().Path(), core.ModPath) {
+				return false
+			}
+			return true
+		}
+		g := cc.StaticCallee()
+		if g == nil {
+			return true // a func value: module code may run
+		}
+		if !c.P.InModule(g) {
+			return false
+		}
+		return !harmless(core.Origin(g), d+1)
+	}
+	harmless = func(g *ssa.Function, d int) bool {
+		if d > 2 || len(g.Blocks) == 0 {
+			return false
+		}
+		for _, b := range g.Blocks {
+			for _, in := range b.Instrs {
+				if ci, ok := in.(ssa.CallInstruction); ok && stepCall(ci, d) {
+					return false
+				}
+			}
+		}
+		return true
+	}
+	moduleCall := func(in ssa.Instruction) bool {
+		ci, ok := in.(ssa.CallInstruction)
+		return ok && stepCall(ci, 0)
+	}
+	b := call.Block()
+	after := false
+	for _, in := range b.Instrs {
+		if in == ssa.Instruction(call) {
+			after = true
+			continue
+		}
+		if after && moduleCall(in) {
+			return false
+		}
+	}
+	seen := map[*ssa.BasicBlock]bool{}
+	st := append([]*ssa.BasicBlock(nil), b.Succs...)
+	for len(st) > 0 {
+		x := st[len(st)-1]
+		st = st[:len(st)-1]
+		if seen[x] {
+			continue
+		}
+		seen[x] = true
+		if x == b {
+			return false // in a loop: the next iteration proceeds
+		}
+		for _, in := range x.Instrs {
+			if moduleCall(in) {
+				return false
+			}
+		}
+		st = append(st, x.Succs...)
+	}
+	// a helper (rejectLogin) returns to its callers: nothing may follow there either
+	if obj := fn.Object(); fn.Parent() == nil && (obj == nil || !obj.Exported()) {
+		if n := c.P.CallGraph().Nodes[fn]; n != nil {
+			for _, e := range n.In {
+				if e.Site == nil || e.Caller == nil || e.Caller.Func == nil || !c.P.InModule(e.Caller.Func) {
+					continue
+				}
+				if !c.nothingFollows(e.Caller.Func, e.Site, depth+1) {
+					return false
+				}
+			}
+		}
+	}
+	return true
+}
+
 // ErrFlow implements R-ERRFLOW over the functions selected by include.
 func (c *Ctx) ErrFlow(include, armed func(*ssa.Function) bool) []core.Ob {
 	var obs []core.Ob
@@ -187,6 +287,8 @@ func (c *Ctx) ErrFlow(include, armed func(*ssa.Function) bool) []core.Ob {
 					o.Got = "write to a compressing writer with a sticky error whose Close is checked on this path"
 				case fn.Signature.Results().Len() > 0 && !hasErrorResult(fn) && otherResultsUsed(call, idx):
 					o.Got = "best-effort value in a function that cannot report errors: the non-error result is used, a failure yields the zero answer"
+				case c.lastActionBeforeGivingUp(fn, call):
+					o.Got = "best-effort notice: nothing of the module runs after it on any path to the exit, so no later step relies on its success"
 				case strings.HasSuffix(name, ".Close") || strings.HasSuffix(name, ".SetDeadline") || strings.HasSuffix(name, ".SetReadDeadline"):
 					o.Status, o.Reason, o.Got = core.Allowed, "best-effort cleanup call", "best-effort cleanup call"
 				default:
